@@ -416,6 +416,19 @@ func check(prop, tier string, seed uint64, runsOverride int, workers int) int {
 	for _, r := range results {
 		if r.out == nil {
 			if r.exitCode == 3 && spinningInLibrary(r.stderr) == "" {
+				if where := blockedOnLibraryLock(r.stderr); where != "" {
+					// every goroutine of the run is blocked and at least one of them waits, inside library code, for a
+					// library mutex: a lock that is never released (the harness never parks a goroutine that holds one)
+					idx := r.from
+					if b, err := os.ReadFile(r.status); err == nil {
+						if v, err := strconv.ParseUint(strings.TrimSpace(string(b)), 10, 64); err == nil {
+							idx = v
+						}
+					}
+					viols = append(viols, replayFile{Property: prop, Rule: prop + ".DEADLOCK", Sig: "library-lock-never-released", Seed: seed, RunIndex: idx,
+						Violation: "all goroutines of the run are blocked; library code waits for a mutex that nobody will release: " + where, Log: strings.Split(tail(r.stderr, 6000), "\n"), Engine: 1})
+					continue
+				}
 				fmt.Fprintf(os.Stderr, "HARNESS TROUBLE: worker [%d,%d) hit the real-time watchdog (wedge or hang inside the simulator):\n%s\n", r.from, r.to, tail(r.stderr, 6000))
 				trouble++
 				continue
@@ -671,6 +684,35 @@ func spinningInLibrary(dump string) string {
 					return strings.TrimSpace(lines[k-1]) + " at " + strings.TrimSpace(l)
 				}
 			}
+		}
+	}
+	return ""
+}
+
+// blockedOnLibraryLock looks at the watchdog's goroutine dump of a wedged run: a goroutine of the bubble that waits for
+// a sync.Mutex / sync.RWMutex and whose first frame outside the runtime and sync packages is library code.
+func blockedOnLibraryLock(dump string) string {
+	for _, block := range strings.Split(dump, "\n\n") {
+		if !strings.HasPrefix(block, "goroutine ") {
+			continue
+		}
+		head := block
+		if i := strings.IndexByte(block, '\n'); i >= 0 {
+			head = block[:i]
+		}
+		if !strings.Contains(head, "synctest bubble") || !(strings.Contains(head, "[sync.Mutex.Lock") || strings.Contains(head, "[sync.RWMutex.Lock") || strings.Contains(head, "[sync.RWMutex.RLock")) {
+			continue
+		}
+		lines := strings.Split(block, "\n")
+		for k := 1; k+1 < len(lines); k += 2 {
+			fn, file := strings.TrimSpace(lines[k]), strings.TrimSpace(lines[k+1])
+			if strings.HasPrefix(fn, "internal/sync.") || strings.HasPrefix(fn, "sync.") || strings.HasPrefix(fn, "runtime.") || strings.HasPrefix(fn, "internal/") {
+				continue
+			}
+			if strings.HasPrefix(file, "/repo/") {
+				return fn + " at " + file
+			}
+			break // the first frame outside sync/runtime is harness code: not the library's lock discipline
 		}
 	}
 	return ""
